@@ -1,7 +1,7 @@
 import sys, os
 sys.path.insert(0, os.path.dirname(os.path.abspath(__file__)))
 import staticprop
-staticprop.main("C15", "Prop_C15", ["C15_auto_traits_at_least_std", "C15_table_wf", "C15_ownedlockable_owns", "C15_refuted_scoped_escape"],
+staticprop.main("C15", "Prop_C15", ["C15_auto_traits_at_least_std", "C15_auto_traits_at_least_reference", "C15_table_wf", "C15_ownedlockable_owns", "C15_refuted_scoped_escape"],
                 ["C15", "C07"], "offending programs (reference escaping a guard / a closure / a collection, guard outliving its lock, shared "
                 "access into an owned collection, Rc / Cell payloads crossing threads through Mutex, RwLock, collections, unsafe-only "
                 "entry points from safe code, unchecked constructors given references) with compiling twins, plus a random sample of "
